@@ -86,6 +86,9 @@ CONFIG (all JSON-able; missing keys take the defaults in DEFAULTS):
    dose       total probe intensity = mean pattern intensity
    defocus, mode_defocus_step (Angstrom), aperture_frac (of the smaller Nyquist frequency)
    phase_sigma  rad, standard deviation of the object phase
+   learn_scan_positions, learn_descan   bool (default False): make the dataset model's scan positions / descan shifts
+              learnable, so that optimizer_params may carry a "dataset" entry (used by C05: the dataset model then owns
+              optimizer state of its own that a resume path must carry along)
 """
 from __future__ import annotations
 
@@ -113,6 +116,8 @@ DEFAULTS = {
     "mode_defocus_step": 60.0,
     "aperture_frac": 0.6,
     "phase_sigma": 0.5,
+    "learn_scan_positions": False,
+    "learn_descan": False,
 }
 STEP_KINDS = {"commensurate": (2.0, 2.0), "fractional": (1.3, 1.7)}
 OBJECT_PERTURBATIONS = ("kick", "ramp", "noise")
@@ -446,7 +451,7 @@ def build(cfg: dict, rng, obj_init=None, probe_init=None, sim=None) -> Problem:
         sampling=(geo.step[0], geo.step[1], geo.dq[0], geo.dq[1]),
         units=("A", "A", "A^-1", "A^-1"),
     )
-    dset = PtychographyDatasetRaster.from_dataset4dstem(ds, verbose=0, learn_descan=False, learn_scan_positions=False)
+    dset = PtychographyDatasetRaster.from_dataset4dstem(ds, verbose=0, learn_descan=bool(c["learn_descan"]), learn_scan_positions=bool(c["learn_scan_positions"]))
     dset.preprocess(
         com_fit_function=c["descan"],
         force_com_rotation=0,
